@@ -89,6 +89,36 @@ def replay_full(prop):
         return RP.write_and_run(prop, job.name + "." + ob["name"], hdr, ['"TasmanianDREAM.hpp"', '<cmath>'], body, "  main_replay();", lib="dream", timeout=60)
     return rp
 
+REPLAY_MEMBERS = r'''
+/* On the real sampler (AddressSanitizer): a regular-form run, clearPDFvalues(), a log-form run; then clearHistory() and another collecting run.
+ * The history must hold dimensions numbers per recorded value and every recorded value must be the probability function at its sample. */
+int main_replay(){
+  int bad = 0; const int NCH = 4;
+  auto pdf = [&](const std::vector<double> &c, std::vector<double> &v)->void{ for (size_t i = 0; i < v.size(); i++) v[i] = std::exp(-c[2*i] * c[2*i] - 0.5 * c[2*i+1] * c[2*i+1]); };
+  auto lpdf = [&](const std::vector<double> &c, std::vector<double> &v)->void{ for (size_t i = 0; i < v.size(); i++) v[i] = -c[2*i] * c[2*i] - 0.5 * c[2*i+1] * c[2*i+1]; };
+  auto inside = [&](const std::vector<double> &x)->bool{ return x[0] > -3.0 && x[0] < 3.0 && x[1] > -3.0 && x[1] < 3.0; };
+  int seed = 5; auto rng = [&]()->double{ seed = (seed * 1103515245 + 12345) & 0x7fffffff; return double(seed) / double(0x7fffffff); };
+  TasDREAM::TasmanianDREAM st(NCH, 2);
+  std::vector<double> init(2 * NCH); for (int i = 0; i < 2 * NCH; i++) init[i] = 0.2 * (i - 3);
+  st.setState(init);
+  TasDREAM::SampleDREAM<TasDREAM::regform>(2, 3, pdf, inside, st, TasDREAM::no_update, TasDREAM::const_one, rng);
+  st.clearPDFvalues();      /* the cached values are in regular form: they must be recomputed by the log-form run */
+  st.clearHistory();
+  TasDREAM::SampleDREAM<TasDREAM::logform>(1, 3, lpdf, inside, st, TasDREAM::no_update, TasDREAM::const_one, rng);
+  const std::vector<double> &h = st.getHistory(); const std::vector<double> &hp = st.getHistoryPDF();
+  if (st.getNumHistory() != (size_t) 3 * NCH || hp.size() != (size_t) 3 * NCH || h.size() != 2 * hp.size()) { std::printf("after clearHistory() and 3 collecting iterations of %d chains: %zu recorded values, %zu numbers in the history\n", NCH, hp.size(), h.size()); bad++; }
+  for (size_t i = 0; i < hp.size() && 2 * i + 1 < h.size(); i++) { double want = -h[2*i] * h[2*i] - 0.5 * h[2*i+1] * h[2*i+1];
+    if (std::abs(hp[i] - want) > 1.E-12) { if (bad < 5) std::printf("recorded value %zu is %g, the log-probability at its sample is %g\n", i, hp[i], want); bad++; } }
+  __CPROVER_assert(bad == 0, "F15 clearPDFvalues / clearHistory leave a state the next run can continue from (values recomputed, history consistent)");
+  return 0;
+}
+'''
+def replay_members(prop):
+    def rp(job, ob, vals, wd):
+        hdr = "Replay against the real sampler.\nproperty %s job %s\nobligation %s: %s\nat %s" % (prop, job.name, ob["name"], ob["description"], ob["location"])
+        return RP.write_and_run(prop, job.name + "." + ob["name"], hdr, ['"TasmanianDREAM.hpp"', '<cmath>'], REPLAY_MEMBERS, "  main_replay();", flags=["-fsanitize=address", "-fno-omit-frame-pointer"], lib="dream", timeout=60)
+    return rp
+
 def replay_f13(prop):
     def rp(job, ob, vals, wd):
         need = ["a_num_chains", "a_i", "a_r1", "a_r2"]
@@ -158,16 +188,16 @@ def jobs(tier, seed, prop):
     # --- the small state members against their own contracts
     R4 = X.Rules()
     parts, fns = [], []
-    for w in ("setState", "setPDFvalues", "saveStateHistory"):
+    for w in ("setState", "setPDFvalues", "saveStateHistory", "clearPDFvalues", "clearHistory"):
         t_, i_ = dream.emit_state_fn(R4, w)
         parts.append(t_); fns += i_["functions"]
     minfo = {"functions": fns, "rules_fired": {k: v for k, v in R4.counts.items() if v}}
     t2 = [t for k, a, t in cf.sections if k == "text2"][0]
     ctext = (pre + "#define TSG_NITER 1\n#define TSG_FORM 0\n#define TSG_SAMPLE(a,b,c)\n#define DREAM_MEMBERS_BODY 1\n" + '#line 1 "/verif/contracts/dream.c"\n' + cf.text(("text",)) + t2 + "".join(parts) + cf.text(("harness",), ["h_state_members"]))
     out.append(Job("dream.state_members", ctext, "h_state_members", unwind=8, timeout=300, backends=[["--refine-arithmetic"], []],
-                   functions=["%s:%d %s" % (f["file"], f["line"], f["name"]) for f in fns], info=minfo,
+                   functions=["%s:%d %s" % (f["file"], f["line"], f["name"]) for f in fns], info=minfo, replay=replay_members(prop),
                    bounded="chains <= 3, dimensions <= 2",
-                   label="TasmanianDREAM::setState / setPDFvalues / saveStateHistory bodies against the contracts the SampleDREAM stubs assume"))
+                   label="TasmanianDREAM::setState / setPDFvalues / saveStateHistory / clearPDFvalues / clearHistory bodies against the contracts the SampleDREAM stubs assume and the representation invariant"))
     # forwarding overloads: every call of SampleDREAM inside a SampleDREAM<form> overload passes its own sampling form on (an omitted template argument is the default of the primary template)
     ftext = X.strip_comments(X.read_source("DREAM/tsgDreamSample.hpp"))
     heads = list(re.finditer(r'template<\s*TypeSamplingForm\s+form\s*(?:=\s*(\w+)\s*)?>\s*void\s+SampleDREAM\s*\(', ftext))
